@@ -451,3 +451,20 @@ func resultsAfterErrCheck(c *Ctx, key string, call *ssa.Call) int {
 	}
 	return n
 }
+
+// maySucceed: a return whose error result is not provably non-nil (a constant nil, or any value that can be nil).
+// Functions without an error result: every return.
+func (c *Ctx) maySucceed(in ssa.Instruction) bool {
+	r, ok := in.(*ssa.Return)
+	if !ok {
+		return false
+	}
+	ei := errIndex(in.Parent().Signature)
+	if ei < 0 || ei >= len(r.Results) {
+		return true
+	}
+	if in.Block().Comment == "recover" {
+		return false // the synthetic exit taken after a recovered panic, not a path of the function's own logic
+	}
+	return !c.definitelyNonNilErr(retVal(r, ei), in.Block(), nil)
+}
